@@ -134,6 +134,9 @@ func c19run(c *fw.Ctx, idx int) {
 			switch r.Intn(5) {
 			case 0, 1:
 				content := fmt.Sprintf("v%d-%d<&>", idx, i)
+				if r.Intn(6) == 0 {
+					content = "" // an empty template is an entry like any other
+				}
 				hist = append(hist, c19op{Op: "Set", Path: sp, Content: content})
 				l.Set(sp, content)
 				model[cn] = content
@@ -171,6 +174,20 @@ func c19run(c *fw.Ctx, idx int) {
 			return
 		}
 		defer os.RemoveAll(root)
+		// the root may be reached through a symbolic link that is re-pointed later (a release swap): the loader serves
+		// whatever is below the path it was given, at the time it is asked
+		swapLink := ""
+		if idx%16 < 8 {
+			holder := root
+			os.Mkdir(filepath.Join(holder, "release-a"), 0755)
+			swapLink = filepath.Join(holder, "current")
+			if os.Symlink(filepath.Join(holder, "release-a"), swapLink) == nil {
+				root = swapLink
+				hist = append(hist, c19op{Op: "RootIsSymlink", Path: "current -> release-a"})
+			} else {
+				swapLink = ""
+			}
+		}
 		var l jet.Loader = jet.NewOSFileSystemLoader(root)
 		if kind == "httpfs" {
 			l, _ = httpfs.NewLoader(http.Dir(root))
@@ -322,6 +339,38 @@ func c19run(c *fw.Ctx, idx int) {
 				return
 			}
 		}
+		if swapLink != "" {
+			// re-point the link to a tree with other files (some names shared, other contents)
+			holder := filepath.Dir(swapLink)
+			relB := filepath.Join(holder, "release-b")
+			os.Mkdir(relB, 0755)
+			newFiles := map[string]string{}
+			k := 0
+			for p := range files {
+				if k%2 == 0 {
+					newFiles[p] = fmt.Sprintf("swapped-%d-%d", idx, k)
+				}
+				k++
+			}
+			newFiles["/only-in-b.jet"] = fmt.Sprintf("b-%d", idx)
+			os.Remove(swapLink)
+			if os.Symlink(relB, swapLink) == nil {
+				hist = append(hist, c19op{Op: "SwapRootLink", Path: "current -> release-b"})
+				oldFiles := files
+				files = map[string]string{}
+				dirs = map[string]bool{"/": true}
+				for p := range oldFiles {
+					universe[p] = true
+				}
+				for p, content := range newFiles {
+					mk(p, content)
+				}
+				c.Count("root_link_swaps", 1)
+				if !check() {
+					return
+				}
+			}
+		}
 		c.Distinct(fmt.Sprintf("%s|%d files|%d dirs", kind, len(files), len(dirs)))
 	case "embedfs":
 		base := "embedtree"
@@ -462,6 +511,9 @@ func c19run(c *fw.Ctx, idx int) {
 			case 0, 1, 2:
 				li := r.Intn(k)
 				content := fmt.Sprintf("L%d-%d-%d", li, idx, i)
+				if r.Intn(8) == 0 {
+					content = ""
+				}
 				hist = append(hist, c19op{Op: "Set", Path: cn, Content: content, Loader: li})
 				mems[li].Set(cn, content)
 				models[li][cn] = content
